@@ -1,139 +1,194 @@
 ------------------------------ MODULE EpochImpl ------------------------------
 (***************************************************************************)
 (* Level 2: EpochManager as implemented (src/thread/epoch_manager.cpp,     *)
-(* component/epoch.cpp), composed with an abstract IDManager whose         *)
-(* thread-exit order is the constant ExitOrder (see IdImpl).               *)
+(* include/dbgroup/thread/epoch_manager.hpp, component/epoch.cpp,          *)
+(* epoch_guard.cpp), composed with an abstract IDManager whose thread-exit *)
+(* order is the constant ExitOrder (see IdImpl).  One action per quantum   *)
+(* of the code between two scheduling points (atomic operations and the    *)
+(* guarded hook points), so that EpochImplTrace can follow real runs step  *)
+(* for step.                                                               *)
 (*                                                                         *)
-(* shared: idflag[i], slotHB[i] (which thread's heartbeat the slot's       *)
-(* weak_ptr denotes), entered[i] (MAX = not entered), global, minE,        *)
-(* nodes (alive 256-epoch list nodes, by range index; Cap = node capacity, *)
-(* 2 when model checking), lists[e] (published protected-epoch sets of the *)
-(* epochs whose node is alive).                                            *)
-(* coordinator ForwardGlobalEpoch: f_load, [new node], one step per slot   *)
-(* (heartbeat test + read entered), f_list (sort/unique/publish into the   *)
-(* node), one step per retired node, f_pub (store global), f_min.          *)
-(* worker CreateEpochGuard / GetProtectedEpochs: c_test (heartbeat of the  *)
-(* slot expired?), c_bind, e_load (read global), e_store (publish          *)
-(* entered), w_head (read head pointer), w_hop (one per hop), w_at (index  *)
-(* the node) -> held; Leave.  Workers start, obtain an ID, exit (two steps *)
-(* in ExitOrder) and later threads reuse the ID.                           *)
+(* shared state                                                            *)
+(*   idflag[i]            reservation flag of ID i                         *)
+(*   slotHB[i]            the thread whose heartbeat tls_fields_[i] holds  *)
+(*                        (0 = never bound); hbAlive[w] = not yet expired  *)
+(*   entered[i]           Epoch::entered_ of slot i (MAX = not entered)    *)
+(*   global, minE         global_epoch_, min_epoch_                        *)
+(*   head, nxt, alive     the linked list of ProtectedNodes: a node is     *)
+(*                        named by its range index (epoch div Cap), 0 is   *)
+(*                        the null pointer; nxt keeps the pointer of a     *)
+(*                        node even after it was unlinked or deleted       *)
+(*   lists[e]             the published vector of epoch e (of alive nodes) *)
+(* coordinator  ForwardGlobalEpoch:                                        *)
+(*   FLoad   load global (+ new node at a range boundary, head updated)    *)
+(*   FTest   tls.heartbeat.expired() of slot cidx                          *)
+(*   FRead   tls.epoch.GetProtectedEpoch() of that slot                    *)
+(*   FList   sort/unique = publish the vector; RemoveOutDatedLists decides *)
+(*           (exactly as the loop does) which nodes go and unlinks the     *)
+(*           first one                                                     *)
+(*   FDelete delete the unlinked node, unlink the next one                 *)
+(*   FPub    global_epoch_.store(next, release)                            *)
+(*   FMin    min_epoch_.store(back())                                      *)
+(* worker  CreateEpochGuard / GetProtectedEpochs:                          *)
+(*   CTest   heartbeat.expired() of the own slot; CBind re-initialises it  *)
+(*   ELoad   read the global epoch;  EStore publish it in entered_         *)
+(*   WHead   read the head pointer;  WDeref dereference the current node:  *)
+(*           hop to its successor or index it (held)                       *)
+(*   Leave   LeaveEpoch                                                    *)
+(* Threads start, claim an ID, exit in two steps (ExitOrder) and later     *)
+(* threads reuse the ID.                                                   *)
 (***************************************************************************)
 EXTENDS Naturals, Sequences, FiniteSets, TLC
 
 CONSTANTS Workers, N, Cap, MaxFwd, MaxGuards, ExitOrder, Init0, WithWalk, NoStall
 
 VARIABLES idflag, ws, wid, hbAlive,
-          slotHB, entered, global, minE, nodes, lists,
-          cpc, ccur, cidx, cacc, nfwd, pinnedAtStart, cret,
+          slotHB, entered, global, minE, head, nxt, alive, lists,
+          cpc, ccur, cidx, cacc, cretq, nfwd, pinnedAtStart, quietF, seqF,
           gpc, ge, ng, cn, gl, stall
-vars == <<idflag, ws, wid, hbAlive, slotHB, entered, global, minE, nodes, lists,
-          cpc, ccur, cidx, cacc, nfwd, pinnedAtStart, cret, gpc, ge, ng, cn, gl, stall>>
+idv == <<idflag, ws, wid, hbAlive>>
+shv == <<slotHB, entered, global, minE, head, nxt, alive, lists>>
+cov == <<cpc, ccur, cidx, cacc, cretq, nfwd, pinnedAtStart, quietF, seqF>>
+wov == <<gpc, ge, ng, cn, gl, stall>>
+vars == <<idv, shv, cov, wov>>
 
-MAX == 9999
+MAX == 999999
 Slots == 0..(N - 1)
 RangeOf(e) == e \div Cap
-HeadN == CHOOSE r \in nodes : \A x \in nodes : x <= r
-NextBelow(r) == IF \E x \in nodes : x < r THEN CHOOSE y \in nodes : y < r /\ \A x \in nodes : x < r => x <= y ELSE 0
+R0 == RangeOf(Init0)
 
 Init == /\ idflag = [i \in Slots |-> FALSE]
         /\ ws = [w \in Workers |-> "new"] /\ wid = [w \in Workers |-> 0] /\ hbAlive = [w \in Workers |-> FALSE]
         /\ slotHB = [i \in Slots |-> 0] /\ entered = [i \in Slots |-> MAX]
-        /\ global = Init0 /\ minE = Init0 /\ nodes = {RangeOf(Init0)} /\ lists = (Init0 :> {Init0})
-        /\ cpc = "idle" /\ ccur = 0 /\ cidx = 0 /\ cacc = {} /\ nfwd = 0 /\ pinnedAtStart = {} /\ cret = {}
+        /\ global = Init0 /\ minE = Init0
+        /\ head = R0 /\ nxt = (R0 :> 0) /\ alive = {R0} /\ lists = (Init0 :> {Init0})
+        /\ cpc = "idle" /\ ccur = 0 /\ cidx = 0 /\ cacc = {} /\ cretq = <<>> /\ nfwd = 0
+        /\ pinnedAtStart = {} /\ quietF = FALSE /\ seqF = FALSE
         /\ gpc = [w \in Workers |-> "none"] /\ ge = [w \in Workers |-> 0] /\ ng = [w \in Workers |-> 0]
         /\ cn = [w \in Workers |-> 0] /\ gl = [w \in Workers |-> {}] /\ stall = [w \in Workers |-> 0]
 
-KeepId == UNCHANGED <<idflag, ws, wid, hbAlive>>
-KeepSh == UNCHANGED <<slotHB, entered, global, minE, nodes, lists>>
-KeepC == UNCHANGED <<cpc, ccur, cidx, cacc, nfwd, pinnedAtStart, cret>>
-KeepG == UNCHANGED <<gpc, ge, ng, cn, gl, stall>>
+\* any guard step of a worker: the forward in progress is neither quiescent nor sequential (and once it has
+\* returned, Quiescent / SeqExact speak about the state it left behind, not about later ones)
+Touch == /\ quietF' = FALSE /\ seqF' = FALSE
+         /\ UNCHANGED <<cpc, ccur, cidx, cacc, cretq, nfwd, pinnedAtStart>>
 
-\* ---------- threads and IDs (claim is one step here; probing is IdImpl's business) ----------
+\* ---------- threads and IDs (the claim is one step here; probing is IdImpl's business) ----------
 Claim(w) == /\ ws[w] = "new"
             /\ \E i \in Slots : /\ ~idflag[i]
                                 /\ idflag' = [idflag EXCEPT ![i] = TRUE] /\ wid' = [wid EXCEPT ![w] = i]
             /\ hbAlive' = [hbAlive EXCEPT ![w] = TRUE] /\ ws' = [ws EXCEPT ![w] = "running"]
-            /\ KeepSh /\ KeepC /\ KeepG
+            /\ UNCHANGED <<shv, cov, wov>>
 ExitA(w) == /\ ws[w] = "running" /\ gpc[w] = "none"
             /\ ws' = [ws EXCEPT ![w] = "exit"]
             /\ IF ExitOrder = "hb_first" THEN hbAlive' = [hbAlive EXCEPT ![w] = FALSE] /\ UNCHANGED idflag
                ELSE idflag' = [idflag EXCEPT ![wid[w]] = FALSE] /\ UNCHANGED hbAlive
-            /\ UNCHANGED wid /\ KeepSh /\ KeepC /\ KeepG
+            /\ UNCHANGED <<wid, shv, cov, wov>>
 ExitB(w) == /\ ws[w] = "exit" /\ ws' = [ws EXCEPT ![w] = "dead"]
             /\ IF ExitOrder = "hb_first" THEN idflag' = [idflag EXCEPT ![wid[w]] = FALSE] /\ UNCHANGED hbAlive
                ELSE hbAlive' = [hbAlive EXCEPT ![w] = FALSE] /\ UNCHANGED idflag
-            /\ UNCHANGED wid /\ KeepSh /\ KeepC /\ KeepG
+            /\ UNCHANGED <<wid, shv, cov, wov>>
 Expired(i) == slotHB[i] = 0 \/ ~hbAlive[slotHB[i]]
 
-\* ---------- worker: CreateEpochGuard (+ list walk of GetProtectedEpochs) ----------
+\* ---------- worker: CreateEpochGuard (+ the list walk of GetProtectedEpochs) ----------
 CTest(w) == /\ ws[w] = "running" /\ gpc[w] = "none" /\ ng[w] < MaxGuards
             /\ gpc' = [gpc EXCEPT ![w] = IF Expired(wid[w]) THEN "c_bind" ELSE "e_load"]
             /\ ng' = [ng EXCEPT ![w] = ng[w] + 1]
             /\ stall' = [stall EXCEPT ![w] = IF cpc # "idle" THEN 1 ELSE 0]   \* forwards this guard creation overlaps
-            /\ UNCHANGED <<ge, cn, gl>> /\ KeepId /\ KeepSh /\ KeepC
+            /\ UNCHANGED <<ge, cn, gl>> /\ UNCHANGED <<idv, shv>> /\ Touch
 CBind(w) == /\ gpc[w] = "c_bind"
             /\ slotHB' = [slotHB EXCEPT ![wid[w]] = w]
             /\ gpc' = [gpc EXCEPT ![w] = "e_load"]
-            /\ UNCHANGED <<entered, global, minE, nodes, lists, ge, ng, cn, gl, stall>> /\ KeepId /\ KeepC
+            /\ UNCHANGED <<entered, global, minE, head, nxt, alive, lists, ge, ng, cn, gl, stall>> /\ UNCHANGED idv /\ Touch
 ELoad(w) == /\ gpc[w] = "e_load"
             /\ ge' = [ge EXCEPT ![w] = global] /\ gpc' = [gpc EXCEPT ![w] = "e_store"]
-            /\ UNCHANGED <<ng, cn, gl, stall>> /\ KeepId /\ KeepSh /\ KeepC
+            /\ UNCHANGED <<ng, cn, gl, stall>> /\ UNCHANGED <<idv, shv>> /\ Touch
+\* CreateEpochGuard returns here ("held"); GetProtectedEpochs goes on to walk the list
 EStore(w) == /\ gpc[w] = "e_store"
              /\ entered' = [entered EXCEPT ![wid[w]] = ge[w]]
-             /\ gpc' = [gpc EXCEPT ![w] = IF WithWalk THEN "w_head" ELSE "held"]
-             /\ UNCHANGED <<slotHB, global, minE, nodes, lists, ge, ng, cn, gl, stall>> /\ KeepId /\ KeepC
+             /\ \E walk \in (IF WithWalk THEN {TRUE, FALSE} ELSE {FALSE}) :
+                   gpc' = [gpc EXCEPT ![w] = IF walk THEN "w_head" ELSE "held"]
+             /\ gl' = [gl EXCEPT ![w] = {}]
+             /\ UNCHANGED <<slotHB, global, minE, head, nxt, alive, lists, ge, ng, cn, stall>> /\ UNCHANGED idv /\ Touch
 WHead(w) == /\ gpc[w] = "w_head"
-            /\ cn' = [cn EXCEPT ![w] = HeadN]
-            /\ gpc' = [gpc EXCEPT ![w] = IF HeadN > RangeOf(ge[w]) THEN "w_hop" ELSE "w_at"]
-            /\ UNCHANGED <<ge, ng, gl, stall>> /\ KeepId /\ KeepSh /\ KeepC
-\* node = node->next : dereferences the current node
-WHop(w) == /\ gpc[w] = "w_hop" /\ cn[w] \in nodes
-           /\ LET nx == NextBelow(cn[w]) IN
-              /\ cn' = [cn EXCEPT ![w] = nx]
-              /\ gpc' = [gpc EXCEPT ![w] = IF nx > RangeOf(ge[w]) THEN "w_hop" ELSE "w_at"]
-           /\ UNCHANGED <<ge, ng, gl, stall>> /\ KeepId /\ KeepSh /\ KeepC
-\* epoch_lists_.at(e & mask) of the node reached
-WAt(w) == /\ gpc[w] = "w_at" /\ cn[w] \in nodes
-          /\ gl' = [gl EXCEPT ![w] = IF cn[w] = RangeOf(ge[w]) /\ ge[w] \in DOMAIN lists THEN lists[ge[w]] ELSE {MAX}]
-          /\ gpc' = [gpc EXCEPT ![w] = "held"]
-          /\ UNCHANGED <<ge, ng, cn, stall>> /\ KeepId /\ KeepSh /\ KeepC
+            /\ cn' = [cn EXCEPT ![w] = head] /\ gpc' = [gpc EXCEPT ![w] = "w_deref"]
+            /\ UNCHANGED <<ge, ng, gl, stall>> /\ UNCHANGED <<idv, shv>> /\ Touch
+\* node->upper_epoch_ > upper_epoch ? node = node->next : return node->epoch_lists_.at(e & mask)
+\* (a deleted node still "answers": its memory is read after free - NodeSafe flags the state before)
+WDeref(w) == /\ gpc[w] = "w_deref" /\ cn[w] # 0
+             /\ IF cn[w] > RangeOf(ge[w])
+                THEN /\ cn' = [cn EXCEPT ![w] = nxt[cn[w]]] /\ UNCHANGED <<gpc, gl>>
+                ELSE /\ LET e == cn[w] * Cap + (ge[w] % Cap) IN
+                        gl' = [gl EXCEPT ![w] = IF e \in DOMAIN lists THEN lists[e] ELSE {MAX}]
+                     /\ gpc' = [gpc EXCEPT ![w] = "held"] /\ UNCHANGED cn
+             /\ UNCHANGED <<ge, ng, stall>> /\ UNCHANGED <<idv, shv>> /\ Touch
 Leave(w) == /\ gpc[w] = "held"
             /\ entered' = [entered EXCEPT ![wid[w]] = MAX] /\ gpc' = [gpc EXCEPT ![w] = "none"]
-            /\ UNCHANGED <<slotHB, global, minE, nodes, lists, ge, ng, cn, gl, stall>> /\ KeepId /\ KeepC
+            /\ UNCHANGED <<slotHB, global, minE, head, nxt, alive, lists, ge, ng, cn, gl, stall>> /\ UNCHANGED idv /\ Touch
 
 \* ---------- coordinator: ForwardGlobalEpoch ----------
 Inside(w) == gpc[w] \notin {"none", "held"}                        \* inside CreateEpochGuard / GetProtectedEpochs
+NewR == RangeOf(global + 1)
 FLoad == /\ cpc = "idle" /\ nfwd < MaxFwd
-         /\ ccur' = global /\ cidx' = 0 /\ cacc' = {global, global + 1} /\ nfwd' = nfwd + 1
-         /\ nodes' = nodes \cup {RangeOf(global + 1)}                  \* new node at a boundary
+         /\ ccur' = global /\ cidx' = 0 /\ cacc' = {global, global + 1} /\ nfwd' = nfwd + 1 /\ cretq' = <<>>
+         /\ IF (global + 1) % Cap = 0                                   \* new node at a range boundary
+            THEN /\ alive' = alive \cup {NewR} /\ nxt' = (NewR :> head) @@ nxt /\ head' = NewR
+            ELSE UNCHANGED <<alive, nxt, head>>
          /\ pinnedAtStart' = {<<w, ng[w]>> : w \in {v \in Workers : gpc[v] = "held"}}
+         /\ quietF' = (\A w \in Workers : gpc[w] = "none") /\ seqF' = (\A w \in Workers : ~Inside(w))
          /\ stall' = [w \in Workers |-> IF Inside(w) THEN stall[w] + 1 ELSE stall[w]]
-         /\ cpc' = "scan" /\ UNCHANGED <<cret, slotHB, entered, global, minE, lists, gpc, ge, ng, cn, gl>> /\ KeepId
-FScan == /\ cpc = "scan" /\ cidx < N
-         /\ cacc' = IF ~Expired(cidx) /\ entered[cidx] # MAX THEN cacc \cup {entered[cidx]} ELSE cacc
-         /\ cidx' = cidx + 1
-         /\ UNCHANGED <<cpc, ccur, nfwd, pinnedAtStart, cret>> /\ KeepId /\ KeepSh /\ KeepG
-FList == /\ cpc = "scan" /\ cidx = N
+         /\ cpc' = "test" /\ UNCHANGED <<slotHB, entered, global, minE, lists, gpc, ge, ng, cn, gl>> /\ UNCHANGED idv
+FTest == /\ cpc = "test" /\ cidx < N
+         /\ IF Expired(cidx) THEN cidx' = cidx + 1 /\ UNCHANGED cpc ELSE cpc' = "read" /\ UNCHANGED cidx
+         /\ UNCHANGED <<ccur, cacc, cretq, nfwd, pinnedAtStart, quietF, seqF>> /\ UNCHANGED <<idv, shv, wov>>
+FRead == /\ cpc = "read"
+         /\ cacc' = IF entered[cidx] # MAX THEN cacc \cup {entered[cidx]} ELSE cacc
+         /\ cidx' = cidx + 1 /\ cpc' = "test"
+         /\ UNCHANGED <<ccur, cretq, nfwd, pinnedAtStart, quietF, seqF>> /\ UNCHANGED <<idv, shv, wov>>
+
+\* --- RemoveOutDatedLists, as the loop runs: `chain` = nodes from the head, k = index of `current`, pr = distinct
+\* ranges of the protected epochs in descending order, j = index of the range the iterator stands on (beyond = kMinEpoch)
+RECURSIVE ChainFrom(_, _)
+ChainFrom(r, f) == IF r = 0 THEN <<>> ELSE <<r>> \o ChainFrom(f[r], f)
+RECURSIVE DescSeq(_)
+DescSeq(S) == IF S = {} THEN <<>> ELSE LET m == CHOOSE x \in S : \A y \in S : y <= x IN <<m>> \o DescSeq(S \ {m})
+Without(s, k) == [i \in 1..(Len(s) - 1) |-> IF i < k THEN s[i] ELSE s[i + 1]]
+RECURSIVE Retire(_, _, _, _)
+Retire(chain, k, pr, j) ==
+    IF k >= Len(chain) THEN <<>>                                          \* current->next == nullptr
+    ELSE IF (IF j <= Len(pr) THEN pr[j] ELSE 0) = chain[k] THEN Retire(chain, k + 1, pr, j + 1)
+    ELSE IF k > 1 THEN <<chain[k]>> \o Retire(Without(chain, k), k, pr, j)
+    ELSE <<>>                                                             \* prev == current: the real loop would spin
+Pred(r) == CHOOSE p \in DOMAIN nxt : p \in alive /\ nxt[p] = r /\ \E i \in 1..Len(ChainFrom(head, nxt)) : ChainFrom(head, nxt)[i] = p
+Unlink(r) == nxt' = [nxt EXCEPT ![Pred(r)] = nxt[r]]
+
+FList == /\ cpc = "test" /\ cidx = N
          /\ lists' = [e \in (DOMAIN lists \cup {ccur + 1}) |-> IF e = ccur + 1 THEN cacc ELSE lists[e]]
-         \* RemoveOutDatedLists: every node without a protected epoch, except the head and the oldest one
-         /\ cret' = {r \in nodes : r # HeadN /\ (\E x \in nodes : x < r) /\ ~\E e \in cacc : RangeOf(e) = r}
+         /\ LET q == Retire(ChainFrom(head, nxt), 1, DescSeq({RangeOf(e) : e \in cacc}), 1) IN
+            /\ cretq' = q
+            /\ IF q # <<>> THEN Unlink(q[1]) ELSE UNCHANGED nxt
          /\ cpc' = "retire"
-         /\ UNCHANGED <<ccur, cidx, cacc, nfwd, pinnedAtStart, slotHB, entered, global, minE, nodes>> /\ KeepId /\ KeepG
-FRetire == /\ cpc = "retire" /\ cret # {}
-           /\ LET r == CHOOSE x \in cret : \A y \in cret : y <= x IN
-              /\ nodes' = nodes \ {r} /\ cret' = cret \ {r}
+         /\ UNCHANGED <<ccur, cidx, cacc, nfwd, pinnedAtStart, quietF, seqF, slotHB, entered, global, minE, head, alive>>
+         /\ UNCHANGED <<idv, wov>>
+FDelete == /\ cpc = "retire" /\ cretq # <<>>
+           /\ LET r == cretq[1] IN
+              /\ alive' = alive \ {r}
               /\ lists' = [e \in {x \in DOMAIN lists : RangeOf(x) # r} |-> lists[e]]
-           /\ UNCHANGED <<cpc, ccur, cidx, cacc, nfwd, pinnedAtStart, slotHB, entered, global, minE>> /\ KeepId /\ KeepG
-FPub == /\ cpc = "retire" /\ cret = {}
+              /\ cretq' = Tail(cretq)
+              /\ IF Len(cretq) > 1 THEN Unlink(cretq[2]) ELSE UNCHANGED nxt
+           /\ UNCHANGED <<cpc, ccur, cidx, cacc, nfwd, pinnedAtStart, quietF, seqF, slotHB, entered, global, minE, head>>
+           /\ UNCHANGED <<idv, wov>>
+FPub == /\ cpc = "retire" /\ cretq = <<>>
         /\ global' = ccur + 1 /\ cpc' = "min"
-        /\ UNCHANGED <<ccur, cidx, cacc, nfwd, pinnedAtStart, cret, slotHB, entered, minE, nodes, lists>> /\ KeepId /\ KeepG
+        /\ UNCHANGED <<ccur, cidx, cacc, cretq, nfwd, pinnedAtStart, quietF, seqF, slotHB, entered, minE, head, nxt, alive, lists>>
+        /\ UNCHANGED <<idv, wov>>
 FMin == /\ cpc = "min"
         /\ minE' = CHOOSE m \in cacc : \A x \in cacc : m <= x
         /\ cpc' = "idle"
-        /\ UNCHANGED <<ccur, cidx, cacc, nfwd, pinnedAtStart, cret, slotHB, entered, global, nodes, lists>> /\ KeepId /\ KeepG
+        /\ UNCHANGED <<ccur, cidx, cacc, cretq, nfwd, pinnedAtStart, quietF, seqF, slotHB, entered, global, head, nxt, alive, lists>>
+        /\ UNCHANGED <<idv, wov>>
 
-WStep(w) == Claim(w) \/ ExitA(w) \/ ExitB(w) \/ CTest(w) \/ CBind(w) \/ ELoad(w) \/ EStore(w) \/ WHead(w) \/ WHop(w) \/ WAt(w) \/ Leave(w)
-CStep == FLoad \/ FScan \/ FList \/ FRetire \/ FPub \/ FMin
+WStep(w) == Claim(w) \/ ExitA(w) \/ ExitB(w) \/ CTest(w) \/ CBind(w) \/ ELoad(w) \/ EStore(w) \/ WHead(w) \/ WDeref(w) \/ Leave(w)
+CStep == FLoad \/ FTest \/ FRead \/ FList \/ FDelete \/ FPub \/ FMin
 Next == CStep \/ \E w \in Workers : WStep(w)
 Spec == Init /\ [][Next]_vars
 \* the conditional form of C17 (known finding D6 excluded): no guard creation overlaps two or more forwards
@@ -147,14 +202,26 @@ C04 == (cpc = "idle" /\ nfwd > 0) =>
 \* C16
 MinLeCur == minE <= global
 OneStep == [][global' = global \/ global' = global + 1]_vars
-Quiescent == (cpc = "idle" /\ nfwd > 0 /\ pinnedAtStart = {} /\ \A w \in Workers : gpc[w] = "none" /\ stall[w] = 0)
-                => TRUE
+\* a forward that started after all guards were gone and met none publishes exactly {cur, cur-1}, min = cur-1
+Quiescent == (cpc = "idle" /\ nfwd > 0 /\ quietF) => (lists[global] = {global, global - 1} /\ minE = global - 1)
+\* C20: a forward that nothing ran concurrently with publishes exactly {new, previous} \cup pinned; min is the smallest;
+\* the chain holds only nodes of ranges with a pinned or current epoch, plus the initial node
+Pinned == {entered[wid[w]] : w \in {v \in Workers : gpc[v] = "held"}}
+SeqExact == (cpc = "idle" /\ nfwd > 0 /\ seqF) =>
+               /\ lists[global] = {global, global - 1} \cup Pinned
+               /\ minE = CHOOSE m \in lists[global] : \A x \in lists[global] : m <= x
+               /\ alive \subseteq ({RangeOf(e) : e \in lists[global]} \cup {R0})
+\* the chain from the head is exactly the alive nodes, strictly descending, ending in the initial node
+ChainOK == cpc \in {"idle", "test", "read"} =>
+              LET c == ChainFrom(head, nxt) IN
+              /\ {c[i] : i \in 1..Len(c)} = alive /\ c[Len(c)] = R0
+              /\ \A i \in 1..(Len(c) - 1) : c[i] > c[i + 1]
 \* C17: every node a guard holder dereferences is alive, and the list it gets is the one of its epoch
-NodeSafe == \A w \in Workers : gpc[w] \in {"w_hop", "w_at"} => cn[w] \in nodes
-OwnList == \A w \in Workers : (gpc[w] = "held" /\ WithWalk) =>
+NodeSafe == \A w \in Workers : gpc[w] = "w_deref" => cn[w] \in alive
+OwnList == \A w \in Workers : (gpc[w] = "held" /\ gl[w] # {}) =>
               /\ ge[w] \in gl[w] /\ \A x \in gl[w] : x <= ge[w]
               /\ (ge[w] > Init0 => (ge[w] - 1) \in gl[w])
-              /\ RangeOf(ge[w]) \in nodes /\ ge[w] \in DOMAIN lists /\ lists[ge[w]] = gl[w]
+              /\ RangeOf(ge[w]) \in alive /\ ge[w] \in DOMAIN lists /\ lists[ge[w]] = gl[w]
 \* C15 seen from here: a slot's heartbeat, while unexpired, belongs to the thread that owns the slot's ID
 SlotOwner == \A i \in Slots : ~Expired(i) => (wid[slotHB[i]] = i /\ ws[slotHB[i]] \in {"running", "exit"})
 =============================================================================
